@@ -1341,6 +1341,7 @@ class CxxParser:
             state.typedef,
             state.mods,
             state.class_decl.classkey,
+            state.location,
         )
 
     def _process_access_specifier(
@@ -2789,6 +2790,7 @@ class CxxParser:
         is_typedef: bool,
         mods: ParsedTypeModifiers,
         classkey: typing.Optional[str],
+        location: typing.Optional[Location] = None,
     ) -> None:
         parsed_type = Type(name)
 
@@ -2813,6 +2815,8 @@ class CxxParser:
                         type=Type(name),
                         access=access,
                     )
+                    if location is not None:
+                        class_state.location = location
                     self.visitor.on_class_field(class_state, f)
             return
 
